@@ -426,7 +426,7 @@ def run_problem(prob):
         out["iterations"] = lfi.iteration
         # (b) single steps from rational starting points on the same compiled problem
         starts = [list(prob["theta0"])]
-        for c in lfi.cap[:n_iter - 1]:
+        for c in lfi.cap[:prob.get("n_single", n_iter) - 1]:
             starts.append([F(round(w * 10 ** 6), 10 ** 6) for w in c["weights"]])
         singles = []
         for th in starts + [list(t) for t in prob.get("extra_starts", [])]:
@@ -632,9 +632,17 @@ def run(ctx):
     if ctx.tier == "thorough":
         ctx.coqchk("PL.C24.Props")
 
-    nprob = ctx.n(26, 420)
+    nprob = ctx.n(18, 240)
     n_iter = 5
     probs = probe_problems()
+    if getattr(ctx, "replay", None) and ctx.replay.get("replay", {}).get("problem"):
+        rp = ctx.replay["replay"]
+        cl = [([(int(h[0]), h[1], (F(h[2]) if h[1] == "fix" else (int(h[2]) if h[1] == "tun" else None))) for h in hs],
+               [(int(a), bool(sg)) for a, sg in b]) for hs, b in rp["problem"]["clauses"]]
+        probs = [{"clauses": cl, "theta0": [F(x) for x in rp["problem"]["theta0"]], "ref": None,
+                  "examples": [[(int(a[1:]), bool(v)) for a, v in e] for e in rp["examples"]],
+                  "mode": rp["mode"], "normalize": rp["normalize"], "tag": "replay"}]
+        nprob = 0
     for k in range(nprob):
         mode = ["complete", "partial", "mixed"][k % 3]
         feat = {"single_fixed": (k % 13 == 5), "mle": mode == "complete" and k % 2 == 0,
@@ -645,6 +653,7 @@ def run(ctx):
         probs.append(p)
     for p in probs:
         p["n_iter"] = n_iter
+        p["n_single"] = ctx.n(3, 5)
     ctx.log("running LFI on %d problems" % len(probs))
     outs = pl.pmap(run_problem, probs, jobs=ctx.n(8, 14), chunksize=1)
     ctx.log("LFI runs done")
@@ -706,7 +715,7 @@ def run(ctx):
     if cases:
         ctx.log("evaluating %d single iterations in the Coq model" % len(cases))
         try:
-            badi = ctx.coq_failing(HEADER, cases, name="lfi", shard=ctx.n(12, 24), jobs=ctx.n(8, 14))
+            badi = ctx.coq_failing(HEADER, cases, name="lfi", shard=ctx.n(8, 24), jobs=ctx.n(8, 14))
         except RuntimeError as e:
             ctx.broken.append("correspondence:ModelLFIUpdate does not evaluate")
             ctx.notes.append(str(e))
